@@ -161,7 +161,24 @@ plan('C07', jobs=_c07, rule=HIST_RULE, required=rows('C07', ('set',)),
      level_note='Trusted: the reference model, the instrumented element types. Finite sample of histories.',
      design_ref='DESIGN.md section 3, C07')
 
-plan('C02', jobs=lambda t: _mem_hist('C02', t, fam='track,large,zst'), rule=HIST_RULE + ' Consuming iterators and drains are abandoned at every cut point j in 0..=len+1 by drop or mem::forget.',
+def _c02(tier):
+    jobs = _mem_hist('C02', tier, fam='track,large,zst')
+    # "however the containers are used": also when an element's own Clone / Drop / == unwinds in the middle of an
+    # operation.  The fault engine's ledger findings (double destruction, destruction or use of a slot without a
+    # live element) are C02's statement; leaks on such a panic are not counted (C04 tolerates them, C02 runs ignore them).
+    jobs += [
+        J('C02', 'dbg/fault', 'dbg', 'eng_panic', '--fam track --space 0,1,2,3', 4, 1, covp='pf/'),
+        J('C02', 'rel/fault', 'rel', 'eng_panic', '--fam track --space 0,1,2,3', 4, 1, covp='pf/'),
+    ]
+    if tier == 'thorough':
+        jobs += [
+            J('C02', 'rel/fault-big', 'rel', 'eng_panic', '--fam track --space 0 --big 1000000', 8, 1, covp='pf/'),
+            J('C02', 'miri/fault', 'miri', 'eng_panic', '--fam track --space 0,1,2 --stride 3', 16, 1, light=True, covp='pf/', timeout=7200),
+        ]
+    return jobs
+
+
+plan('C02', jobs=_c02, rule=HIST_RULE + ' Consuming iterators and drains are abandoned at every cut point j in 0..=len+1 by drop or mem::forget. Fault jobs (pf/ rows): every operation of the fault engine x every slot layout of N<=3 x every callback position of an injected panic, ledger findings only.',
      required=rows('C02'), assumptions=NATIVE_ASSUME + SAN_ASSUME,
      title='exactly-once destruction (ownership ledger)',
      technique='runtime monitoring: ownership ledger (conservation + exactly-once monitor over new/clone/drop/use events of instrumented elements) plus Miri, AddressSanitizer and valgrind memcheck on the same workloads',
